@@ -29,6 +29,18 @@ theorem getSects_putSects (ss : List Sect) (rest : List Nat) (h : ∀ s ∈ ss, 
     rw [ih (fun t ht => h t (by simp [ht]))]
     rw [getSInt_putSInt _ h2, getSInt_putSInt _ h3, Nat.mod_mod, Nat.mod_eq_of_lt h1]
 
+theorem getSects_length (k : Nat) (l : List Nat) : (getSects k l).length = k := by
+  fun_induction getSects k l <;> simp_all
+
+theorem decode_sects_length (buf : List Nat) : (decode buf).sects.length = nameLimit := by
+  unfold decode
+  split
+  · simp [getSects_length]
+  · simp [newHeader]
+
+theorem sectAt_limit (h : Hdr) (hl : h.sects.length = nameLimit) : h.sectAt nameLimit = Sect.none := by
+  simp [Hdr.sectAt, List.getD_eq_getElem?_getD, hl]
+
 /-! ### reading -/
 theorem readBuf_length (file : List Nat) (pos cc : Nat) (junk : List Nat) :
     (readBuf file pos cc junk).length = cc := by
@@ -89,6 +101,22 @@ theorem setupIndex_unique (ss : List Sect) (k : Nat) (f : Nat → Nat) (n i : Na
           omega)
       rw [this]; omega
 
+theorem setupIndex_range (ss : List Sect) (k : Nat) (f : Nat → Nat) (n : Nat) :
+    setupIndex ss k f n = f n ∨ (k ≤ setupIndex ss k f n ∧ setupIndex ss k f n < k + ss.length) := by
+  induction ss generalizing k f with
+  | nil => exact Or.inl rfl
+  | cons s ss ih =>
+    simp only [setupIndex, List.length_cons]
+    rcases ih (k + 1) (if s.name < nameLimit then setIndex f s.name k else f) with h | h
+    · rw [h]
+      by_cases hs : s.name < nameLimit
+      · simp only [hs, if_true, setIndex]
+        by_cases hn : n = s.name
+        · simp [hn]
+        · simp [hn]
+      · simp [hs]
+    · exact Or.inr ⟨by omega, by omega⟩
+
 /-! ### `chkNames`, `chkContig`, `findSect` as quantifiers -/
 theorem chkNames_ok (h : Hdr) (l : List Nat) :
     chkNames h l = .ok ↔ ∀ i ∈ l, (h.sectAt i).name < nameLimit ∧ h.index (h.sectAt i).name = i := by
@@ -107,7 +135,7 @@ theorem chkNames_ok (h : Hdr) (l : List Nat) :
         · intro hh; exact hh.2
 
 theorem chkNames_cases (h : Hdr) (l : List Nat) :
-    chkNames h l = .ok ∨ chkNames h l = .badSectName ∨ chkNames h l = .bugIndex := by
+    chkNames h l = .ok ∨ chkNames h l = .badSectName ∨ chkNames h l = .dupSect := by
   induction l with
   | nil => simp [chkNames]
   | cons i is ih =>
